@@ -212,7 +212,6 @@ func (w *World) exchangeBatch(batch *Batch, add []ID, rem []ID,
 	if len(add) == 0 && len(rem) == 0 {
 		panic("at least one component required to add or remove")
 	}
-	lock := w.lock()
 
 	relRemoved := false
 	tables := w.storage.getBatchTables(batch)
@@ -239,6 +238,9 @@ func (w *World) exchangeBatch(batch *Batch, add []ID, rem []ID,
 	// Register the targets before any callback runs: the relations slice is a buffer of the caller
 	// that a (rejected) nested call from inside a callback may overwrite.
 	w.storage.registerTargets(relations)
+	// Lock only now: finding the target tables above panics if the operation is invalid for a table,
+	// and must not leave the world locked. No callback has run so far.
+	lock := w.lock()
 
 	if len(rem) > 0 {
 		if w.storage.observers.HasObservers(OnRemoveComponents) {
@@ -427,7 +429,6 @@ func (w *World) setRelationsBatch(batch *Batch, relations []relationID, fn func(
 	if len(relations) == 0 {
 		panic("no relations specified")
 	}
-	lock := w.lock()
 	hasObserver := w.storage.observers.HasObservers(OnAddRelations) || w.storage.observers.HasObservers(OnRemoveRelations)
 
 	tables := w.storage.getBatchTables(batch)
@@ -450,6 +451,9 @@ func (w *World) setRelationsBatch(batch *Batch, relations []relationID, fn func(
 	// Register the targets before any callback runs: the relations slice is a buffer of the caller
 	// that a (rejected) nested call from inside a callback may overwrite.
 	w.storage.registerTargets(relations)
+	// Lock only now: preparing the moves above panics if the relations are invalid for a table,
+	// and must not leave the world locked. No callback has run so far.
+	lock := w.lock()
 
 	// All removal events are emitted before the entire batch.
 	if w.storage.observers.HasObservers(OnRemoveRelations) {
